@@ -424,7 +424,7 @@ def generate(rng, tier):
     cases.append(conn_case(plain, [R(b"GET", b"/f.txt"), R(b"GET", b"/f.txt", [(b"if-modified-since", b"@T+3600")]), R(b"HEAD", b"/f.txt", [(b"if-modified-since", b"@T+3600")]),
                                    R(b"GET", b"/f.txt", [(b"if-modified-since", b"@T+3600"), (b"range", b"bytes=0-3")]), R(b"GET", b"/f.txt")], "corpus-304"))
     cases.append(conn_case(plain, [R(b"GET", b"/h/n"), R(b"GET", b"/h/x"), R(b"GET", b"/h/u"), R(b"GET", b"/h/l"), R(b"HEAD", b"/h/l"), R(b"OPTIONS", b"/f.txt"), R(b"GET", b"/h/e")], "corpus-handlers"))
-    # the five defects of the send path (fixed: 537474e 1d0a5e7 feabc71 b4638db c151144)
+    # the five defects of the send path (fixed: d63bba7 4cb2e2f 7334433 89e2956 3c296af)
     cases.append(conn_case(plain, [R(b"HEAD", b"/s/file.txt"), R(b"GET", b"/f.txt"), R(b"HEAD", b"/st/len"), R(b"GET", b"/st/len"), R(b"GET", b"/f.txt")], "corpus-stream-head"))
     cases.append(conn_case(plain, [R(b"GET", b"/s/file.txt", [(b"range", b"bytes=0-99999")]), R(b"GET", b"/s/file.txt", [(b"range", b"bytes=50-60")]),
                                    R(b"GET", b"/s/file.txt", [(b"range", b"bytes=5-9")]), R(b"HEAD", b"/s/file.txt", [(b"range", b"bytes=30-40")]),
